@@ -3,6 +3,7 @@
 package splitcarfetcher
 
 import (
+	"bytes"
 	"errors"
 	"fmt"
 	"io"
@@ -21,6 +22,13 @@ type c16File struct {
 var c16ErrNegative = errors.New("c16File.ReadAt: negative offset")
 
 func (f *c16File) ReadAt(p []byte, off int64) (int, error) {
+	// common case decided with a single branch: the whole request lies inside the file
+	if verifIteU64(off >= 0, 1, 0)&verifIteU64(off+int64(len(p)) <= f.size, 1, 0) == 1 {
+		for i := range p {
+			p[i] = verifUF8(f.name, uint64(off)+uint64(i))
+		}
+		return len(p), nil
+	}
 	if off < 0 {
 		return 0, c16ErrNegative
 	}
@@ -125,12 +133,13 @@ func VerifC16Multi() {
 	rem = int64(verifIteU64(rem < 0, 0, uint64(rem)))
 	want := int64(verifIteU64(rem < int64(L), uint64(rem), uint64(L)))
 	verifAssert(int64(got) == want, "C16.multi: n differs from min(len(p), total-off)")
+	gotB, wantB := make([]byte, L), make([]byte, L)
 	for i := 0; i < L; i++ {
 		in := int64(i) < want
-		g := off + int64(i)
-		verifAssert(verifIteU64(in, uint64(p[i]), 0) == verifIteU64(in, l.expect(g), 0),
-			"C16.multi: byte differs from the concatenation of the pieces")
+		gotB[i] = byte(verifIteU64(in, uint64(p[i]), 0))
+		wantB[i] = byte(verifIteU64(in, l.expect(off+int64(i)), 0))
 	}
+	verifAssert(bytes.Equal(gotB, wantB), "C16.multi: bytes differ from the concatenation of the pieces")
 	if got < L {
 		verifAssert(err == io.EOF, "C16.multi: short read without io.EOF")
 	} else {
@@ -159,9 +168,10 @@ func VerifC16Short() {
 	got, err := m.ReadAt(p, off)
 	verifAssert(got == L || err != nil, "C16.short: a piece shorter than declared yields a short read with a nil error")
 	// bytes delivered before the gap are still the right ones
+	wantB := make([]byte, got)
 	for i := 0; i < got; i++ {
-		g := off + int64(i)
-		verifAssert(uint64(p[i]) == l.expect(g), "C16.short: byte differs from the piece content")
+		wantB[i] = byte(l.expect(off + int64(i)))
 	}
+	verifAssert(bytes.Equal(p[:got], wantB), "C16.short: bytes differ from the piece content")
 	verifReach("end")
 }
